@@ -111,6 +111,7 @@ class RecBroker(InMemoryMessageBroker):
         self.fail_ids: set = set()               # (op, id) pairs that raise
         self.fail_next_any = 0                   # number of upcoming top-level terminal calls that raise
         self.fail_any_ids: set = set()           # message ids whose next top-level terminal call raises
+        self.round_trip = 0.0                    # seconds a top-level terminal call spends on its way before it takes effect
 
     def _top(self) -> bool:
         return _nested.get() == 0
@@ -137,6 +138,8 @@ class RecBroker(InMemoryMessageBroker):
                      params=params, payload=payload, ok=not failed)
         if failed:
             raise ConnectionError(f"injected failure of {op}")
+        if top and self.round_trip and op in ("ack", "nack", "reject", "requeue"):
+            await asyncio.sleep(self.round_trip)
         tok = _nested.set(_nested.get() + 1)
         try:
             res = await fn()
